@@ -12,6 +12,8 @@ import (
 	"fmt"
 	"net"
 	"net/http"
+
+	"golang.org/x/net/http2"
 	"os"
 	"strings"
 	"sync"
@@ -23,12 +25,13 @@ import (
 	"mosn.io/mosn/pkg/configmanager"
 	_ "mosn.io/mosn/pkg/filter/network/proxy"
 	"mosn.io/mosn/pkg/log"
-	_ "mosn.io/mosn/pkg/protocol/xprotocol/bolt"
+	"mosn.io/mosn/pkg/protocol/xprotocol"
+	"mosn.io/mosn/pkg/protocol/xprotocol/bolt"
 	"mosn.io/mosn/pkg/router"
 	"mosn.io/mosn/pkg/server"
 	_ "mosn.io/mosn/pkg/stream/http"
 	_ "mosn.io/mosn/pkg/stream/http2"
-	_ "mosn.io/mosn/pkg/stream/xprotocol"
+	xstream "mosn.io/mosn/pkg/stream/xprotocol"
 	"mosn.io/mosn/pkg/types"
 	"mosn.io/mosn/pkg/upstream/cluster"
 )
@@ -141,9 +144,13 @@ func (discard) Write(b []byte) (int, error) { return len(b), nil }
 
 func initEnv() {
 	envOnce.Do(func() {
-		log.DefaultLogger.SetLogLevel(log.FATAL)
-		log.StartLogger.SetLogLevel(log.FATAL)
-		log.Proxy.SetLogLevel(log.FATAL)
+		lvl := log.FATAL
+		if os.Getenv("C11_DEBUG") == "2" {
+			lvl = log.DEBUG
+		}
+		log.DefaultLogger.SetLogLevel(lvl)
+		log.StartLogger.SetLogLevel(lvl)
+		log.Proxy.SetLogLevel(lvl)
 		// unix domain sockets of the transfer machinery go below the run directory, never the system default
 		wd, _ := os.Getwd()
 		uds := fmt.Sprintf("%s/uds%d", wd, os.Getpid())
@@ -152,32 +159,60 @@ func initEnv() {
 		configmanager.ParseServerConfig(&v2.ServerConfig{})
 		api.RegisterNetwork(recFilter, func(map[string]interface{}) (api.NetworkFilterChainFactory, error) { return recFactory{}, nil })
 
-		ul, err := net.Listen("tcp", "127.0.0.1:0")
-		if err != nil {
-			panic(err)
+		xprotocol.RegisterXProtocolAction(xstream.NewConnPool, xstream.NewStreamFactory, func(api.XProtocolCodec) {})
+		_ = xprotocol.RegisterXProtocolCodec(&bolt.XCodec{})
+
+		listen := func() net.Listener {
+			l, err := net.Listen("tcp", "127.0.0.1:0")
+			if err != nil {
+				panic(err)
+			}
+			return l
 		}
+		// HTTP/1 upstream
+		ul := listen()
 		upstreamAddr = ul.Addr().String()
 		go (&http.Server{Handler: http.HandlerFunc(upstreamHandler)}).Serve(ul)
+		// HTTP/2 (prior knowledge) upstream, same handler
+		u2 := listen()
+		go func() {
+			h2s := &http2.Server{}
+			for {
+				c, err := u2.Accept()
+				if err != nil {
+					return
+				}
+				go h2s.ServeConn(c, &http2.ServeConnOpts{Handler: http.HandlerFunc(upstreamHandler)})
+			}
+		}()
+		// bolt upstream
+		ub := listen()
+		go serveBoltUpstream(ub)
 
-		clusters := []v2.Cluster{{
-			Name: "c11_up", ClusterType: v2.SIMPLE_CLUSTER, LbType: v2.LB_ROUNDROBIN,
-			MaxRequestPerConn: 1024, ConnBufferLimitBytes: 32 * 1024,
-			Hosts: []v2.Host{{HostConfig: v2.HostConfig{Address: upstreamAddr}}},
-		}}
+		mk := func(name, addr string) v2.Cluster {
+			return v2.Cluster{Name: name, ClusterType: v2.SIMPLE_CLUSTER, LbType: v2.LB_ROUNDROBIN,
+				MaxRequestPerConn: 1024, ConnBufferLimitBytes: 32 * 1024,
+				Hosts: []v2.Host{{HostConfig: v2.HostConfig{Address: addr}}}}
+		}
+		clusters := []v2.Cluster{mk("c11_up_h1", upstreamAddr), mk("c11_up_h2", u2.Addr().String()), mk("c11_up_bolt", ub.Addr().String())}
 		cs, cmap := configmanager.ParseClusterConfig(clusters)
 		clusterMng = cluster.NewClusterManagerSingleton(cs, cmap, nil)
-		rc := &v2.RouterConfiguration{
-			RouterConfigurationConfig: v2.RouterConfigurationConfig{RouterConfigName: "c11_router"},
-			VirtualHosts: []v2.VirtualHost{{
-				Name: "all", Domains: []string{"*"},
-				Routers: []v2.Router{{RouterConfig: v2.RouterConfig{
-					Match: v2.RouterMatch{Prefix: "/"},
-					Route: v2.RouteAction{RouterActionConfig: v2.RouterActionConfig{ClusterName: "c11_up"}},
-				}}},
-			}},
-		}
-		if err := router.GetRoutersMangerInstance().AddOrUpdateRouters(rc); err != nil {
-			panic(err)
+		for _, p := range []string{"h1", "h2", "bolt"} {
+			rt := v2.Router{RouterConfig: v2.RouterConfig{
+				Route: v2.RouteAction{RouterActionConfig: v2.RouterActionConfig{ClusterName: "c11_up_" + p}},
+			}}
+			if p == "bolt" {
+				rt.Match = v2.RouterMatch{Headers: []v2.HeaderMatcher{{Name: "service", Value: ".*", Regex: true}}}
+			} else {
+				rt.Match = v2.RouterMatch{Prefix: "/"}
+			}
+			rc := &v2.RouterConfiguration{
+				RouterConfigurationConfig: v2.RouterConfigurationConfig{RouterConfigName: "c11_router_" + p},
+				VirtualHosts:              []v2.VirtualHost{{Name: "all", Domains: []string{"*"}, Routers: []v2.Router{rt}}},
+			}
+			if err := router.GetRoutersMangerInstance().AddOrUpdateRouters(rc); err != nil {
+				panic(err)
+			}
 		}
 	})
 }
@@ -206,7 +241,7 @@ func listenerAddr(ln types.Listener) (string, error) {
 	return fl.Addr().String(), nil
 }
 
-// newMosn builds a server with one HTTP/1 proxy listener. inherit != nil: the listener inherits that socket (the
+// newMosn builds a server with one proxy listener for protocol proto (h1 | h2 | bolt). inherit != nil: the listener inherits that socket (the
 // hot-upgrade path of ParseListenerConfig/NewListener); otherwise it binds 127.0.0.1:0 itself.
 func newMosn(proto string, inherit net.Listener) *mosnInst {
 	initEnv()
@@ -224,7 +259,8 @@ func newMosn(proto string, inherit net.Listener) *mosnInst {
 			FilterChains: []v2.FilterChain{{FilterChainConfig: v2.FilterChainConfig{Filters: []v2.Filter{
 				{Type: recFilter, Config: map[string]interface{}{}},
 				{Type: "proxy", Config: map[string]interface{}{
-					"downstream_protocol": proto, "upstream_protocol": proto, "router_config_name": "c11_router",
+					"downstream_protocol": protoName(proto), "upstream_protocol": protoName(proto), "router_config_name": "c11_router_" + proto,
+					"extend_config": map[string]interface{}{"enable_bolt_goaway": true},
 				}},
 			}}}},
 		},
